@@ -340,7 +340,9 @@ func (w *World) reset(info M, splits []int) {
 	}
 	if _, ok := e["lossless"]; !ok {
 		// no request or response is lost and nobody crashes in these families: a finished transaction must not leave a lock
-		e["lossless"] = e["kind"] == "c01" || e["kind"] == "c06"
+		// (not on unistore: it keeps no commit record for a lock-only secondary key, so a background commit that finds such a
+		// key already resolved is refused as a whole and legitimately leaves its other locks to the next reader)
+		e["lossless"] = (e["kind"] == "c01" || e["kind"] == "c06") && !useUni
 	}
 	w.rec.emit(e)
 }
